@@ -50,6 +50,7 @@ type c17qSeen struct {
 	Method     string      `json:"method"`
 	RequestURI string      `json:"request_uri"`
 	Path       string      `json:"path"`
+	Escaped    string      `json:"escaped_path"` // http.Request.URL.EscapedPath(): the path as it was written in the request target
 	RawQuery   string      `json:"raw_query"`
 	Header     http.Header `json:"header"`
 	Body       []byte      `json:"body"`
@@ -77,7 +78,7 @@ func c17qStart() map[string]*c17qServer {
 		s := &c17qServer{name: name, seen: make(chan c17qSeen, 64)}
 		return s, http.HandlerFunc(func(w http.ResponseWriter, r *http.Request) {
 			body, err := io.ReadAll(r.Body)
-			rec := c17qSeen{Method: r.Method, RequestURI: r.RequestURI, Path: r.URL.Path, RawQuery: r.URL.RawQuery, Header: r.Header.Clone(), Body: body, Proto: r.Proto}
+			rec := c17qSeen{Method: r.Method, RequestURI: r.RequestURI, Path: r.URL.Path, Escaped: r.URL.EscapedPath(), RawQuery: r.URL.RawQuery, Header: r.Header.Clone(), Body: body, Proto: r.Proto}
 			if err != nil {
 				rec.BodyErr = err.Error()
 			}
@@ -206,8 +207,14 @@ func c17qJudge(raw *conformancev1.RawHTTPRequest, obs c17qObs) (out []c17qVerdic
 	// path: the part of the given URI before '?', as it appears in the request target
 	wantPath, wantOwnQuery, _ := strings.Cut(raw.GetUri(), "?")
 	gotPath, _, _ := strings.Cut(seen.RequestURI, "?")
-	if gotPath != wantPath {
-		add("raw-request:path", "server saw request target %q (path %q), specified URI %q", seen.RequestURI, gotPath, raw.GetUri())
+	switch {
+	case gotPath == wantPath && seen.Escaped == wantPath:
+	case strings.Contains(wantPath, "%") && len(raw.GetRawQueryParams())+len(raw.GetEncodedQueryParams()) > 0:
+		// a percent-escape is part of the path as specified: %2F is not a segment separator,
+		// %3F does not start the query, %23 no fragment, %25 is a literal percent sign
+		add("raw-request:escaped-path-with-query-params", "server saw request target %q (escaped path %q, decoded path %q), specified URI %q whose path %q must arrive as written, together with the listed query parameters", seen.RequestURI, seen.Escaped, seen.Path, raw.GetUri(), wantPath)
+	default:
+		add("raw-request:path", "server saw request target %q (path %q, URL.EscapedPath %q), specified URI %q", seen.RequestURI, gotPath, seen.Escaped, raw.GetUri())
 	}
 	// query parameters
 	got, err := url.ParseQuery(seen.RawQuery)
@@ -384,7 +391,26 @@ var (
 	c17qProtos = []string{"h1", "h2tls", "h2c"}
 	c17qVerbs  = []string{"POST", "GET", "PUT"}
 	c17qURIs   = []string{"/svc.Name/Method", "/", "/a%20b/c", "/q?x=1&y=z"}
+	// paths with a percent-escape whose decoded form would mean something else in a URI
+	// (segment separator, start of the query, start of a fragment, the escape character itself),
+	// without and with a query string of their own; each is combined with every raw / encoded
+	// query parameter list
+	c17qEscapedURIs = []string{
+		"/pkg.Service/Me%2Fthod", "/x/What%3Fnow", "/x/frag%23ment", "/x/100%25",
+		"/pkg.Service/Me%2Fthod?x=1&y=z", "/x/What%3Fnow?x=1",
+	}
+	c17qEscapedURIsThorough = []string{
+		"/%2F", "/a%2Fb%3Fc%23d%25e", "/x/frag%23ment?y=z", "/x/100%25?x=1&x=%25", "/a%2Fb%3Fc%23d%25e?x=1",
+	}
 )
+
+func c17qAllURIs(thorough bool) []string {
+	out := append(append([]string{}, c17qURIs...), c17qEscapedURIs...)
+	if thorough {
+		out = append(out, c17qEscapedURIsThorough...)
+	}
+	return out
+}
 
 func c17qMake(verb, uri string, rawQ []*conformancev1.Header, encQ []*conformancev1.RawHTTPRequest_EncodedQueryParam, headers []*conformancev1.Header, body c17lib.Body) *conformancev1.RawHTTPRequest {
 	raw := &conformancev1.RawHTTPRequest{Verb: verb, Uri: uri}
@@ -434,7 +460,7 @@ func c17qEnumerate(thorough bool, visit func(grid, proto string, raw *conformanc
 	helloBody := c17lib.Body{Unary: c17lib.Payloads(0)[0]}
 	// grid U: verb x URI x raw query params x encoded query params
 	for _, verb := range c17qVerbs {
-		for _, uri := range c17qURIs {
+		for _, uri := range c17qAllURIs(thorough) {
 			for _, rq := range c17qRawQueryLists() {
 				for _, eq := range c17qEncodedLists(thorough) {
 					body := helloBody
@@ -504,7 +530,7 @@ func c17qEnumerate(thorough bool, visit func(grid, proto string, raw *conformanc
 func TestVerifC17RawRequest(t *testing.T) {
 	r := rep.New("c17-rawreq")
 	defer r.Write()
-	r.Rule = "case = (protocol h1|h2tls|h2c) x RawHTTPRequest; grid U = verb{POST,GET,PUT} x 4 URIs (plain, root, escaped, with own query) x 4 raw query lists x encoded query lists (text/binary/binary_message, compressed, +-base64, repeated name, unset value; thorough: 7 payloads x 7 compressions x +-base64); grid H = verb x header lists (0-3 headers, 1-2 values, a name in two entries - same spelling or differing in case - whose values must all arrive in list order, Content-Type, correct Content-Length) x medium body set; grid B (thorough) = full body alphabet x 2 verbs x 2 header lists; distinct (proto, definition) = non-trivial; oracle = what a recording net/http server received vs. the definition (independent body decoder), nothing of the original request"
+	r.Rule = "case = (protocol h1|h2tls|h2c) x RawHTTPRequest; grid U = verb{POST,GET,PUT} x 10 URIs (thorough 15: plain, root, escaped space, with own query, paths with %2F / %3F / %23 / %25 without and with an own query string; the escaped path the server receives - request target and URL.EscapedPath() - must be the one specified) x 4 raw query lists x encoded query lists (text/binary/binary_message, compressed, +-base64, repeated name, unset value; thorough: 7 payloads x 7 compressions x +-base64); grid H = verb x header lists (0-3 headers, 1-2 values, a name in two entries - same spelling or differing in case - whose values must all arrive in list order, Content-Type, correct Content-Length) x medium body set; grid B (thorough) = full body alphabet x 2 verbs x 2 header lists; distinct (proto, definition) = non-trivial; oracle = what a recording net/http server received vs. the definition (independent body decoder), nothing of the original request"
 
 	servers := c17qStart()
 	defer func() {
